@@ -30,6 +30,15 @@ from ..core.types import Capability
 MAX_EXPRESSION_LENGTH = 10000  # Characters
 MAX_AST_DEPTH = 50  # Nesting levels
 
+class _LowercaseBooleans(ast.NodeTransformer):
+    """Rewrite the names ``true`` / ``false`` into boolean constants."""
+
+    def visit_Name(self, node: ast.Name) -> ast.AST:
+        if node.id in ("true", "false"):
+            return ast.copy_location(ast.Constant(value=(node.id == "true")), node)
+        return node
+
+
 class MetabolicPathway(Enum):
     """
     Different metabolic pathways for different substrates.
@@ -440,11 +449,10 @@ class Mitochondria:
         More complex than glycolysis - like the Krebs cycle in
         the mitochondrial matrix.
         """
-        # Normalize Python boolean literals
-        expression = expression.replace('True', '1').replace('False', '0')
-        expression = expression.replace('true', '1').replace('false', '0')
-
         tree = ast.parse(expression, mode='eval')
+        # Accept the bare names true/false as boolean literals (True/False already parse
+        # as constants); rewriting the tree keeps the contents of string literals intact
+        tree = _LowercaseBooleans().visit(tree)
         return bool(self._compute_node(tree.body))
 
     def _oxidative_phosphorylation(self, expression: str) -> Any:
